@@ -84,12 +84,14 @@ pub struct Deploy {
     pub workers: usize,
     pub dir: PathBuf,
     pub log_level: String,
+    /// further entries of the server's configuration file (the file is a list: one process serves them all)
+    pub extra_server_entries: Vec<Value>,
 }
 
 impl Deploy {
     pub fn new(cfg: Cfg, transport: Transport, udp: bool, workers: usize, dir: &Path) -> Deploy {
         std::fs::create_dir_all(dir).ok();
-        Deploy { cfg, transport, server_port: free_port(), client_port: free_port(), client_mode: if udp { "tcp_and_udp".into() } else { "tcp".into() }, server_mode: None, udp, workers, dir: dir.to_path_buf(), log_level: "info".into() }
+        Deploy { cfg, transport, server_port: free_port(), client_port: free_port(), client_mode: if udp { "tcp_and_udp".into() } else { "tcp".into() }, server_mode: None, udp, workers, dir: dir.to_path_buf(), log_level: "info".into(), extra_server_entries: Vec::new() }
     }
 
     fn certs(&self) -> PathBuf {
@@ -143,7 +145,9 @@ impl Deploy {
     }
 
     pub fn server_json(&self) -> Value {
-        json!([self.server_entry()])
+        let mut v = vec![self.server_entry()];
+        v.extend(self.extra_server_entries.iter().cloned());
+        Value::Array(v)
     }
 
     pub fn client_json(&self) -> Value {
